@@ -59,6 +59,9 @@ class ParticleGibbsSubtreeSampler(ParticleGibbsTreeSampler):
             if label != outlier_node_name:
                 nodes.append(label)
 
+        if len(nodes) == 0:
+            return super().sample_tree(tree)
+
         subtree_root_child = self._rng.choice(nodes)
 
         subtree_root = tree.get_parent(subtree_root_child)
